@@ -402,7 +402,13 @@ class Check:
                     json.dump(v, fh, indent=1, default=str)
                 log("VIOLATION property=%s replay=%s" % (self.prop, path))
                 log("  " + str(v["what"])[:400])
-            log("[%s] %d violating cases in %d classes" % (self.prop, len(self.violations), len(seen)))
+            allk = {}
+            for v in self.violations:
+                allk[v["key"]] = allk.get(v["key"], 0) + 1
+            log("[%s] %d violating cases in %d classes" % (self.prop, len(self.violations), len(allk)))
+            if os.environ.get("NV_CLASSES"):
+                for k in sorted(allk):
+                    log("  CLASS %6d %s" % (allk[k], k[:200]))
             rc = 1
         log("[%s] tier=%s seed=%d wall=%.1fs states=%d violations=%d" % (
             self.prop, self.tier, self.seed, wall, distinct, len(self.violations)))
